@@ -166,8 +166,9 @@ class Gen(object):
         return BIN(op, l, r)
 
     def rel_expr(self, fields, depth):
-        # a statement without any field reference is silently dropped by the
-        # library (known finding KF-C02-CONSTONLY); that shape is gated here
+        # field-free comparisons are of no practical interest; keep at least one
+        # field reference (the library used to drop such statements silently:
+        # fixed, see known_findings.json FX-C02-FIELDFREE)
         for _ in range(8):
             e = self._rel_expr(fields, depth)
             if has_field(e):
@@ -704,3 +705,92 @@ def hierarchy(rng, depth=3, prefix="H"):
         classes.append({"name": "%s%d" % (prefix, d), "base": ("%s%d" % (prefix, d - 1)) if d else None,
                         "fields": fields, "blocks": blocks})
     return classes
+
+
+# ---------------------------------------------------------------------------
+# list programs (C04)
+# ---------------------------------------------------------------------------
+class ListGen(TreeGen):
+
+    def list_program(self, allow_randsz=True, allow_obj=True, gates=()):
+        rng = self.rng
+        enums = self.enum_defs(1)
+        self.enums = enums
+        leaf = {"name": "L0", "fields": [self.scalar_field("x", True, width=rng.choice([2, 3])),
+                                         self.scalar_field("y", True, width=rng.choice([2, 3]))],
+                "blocks": [], "_level": 0}
+        leaf["blocks"].append({"n": "c0", "stmts": [simple_stmt(rng, [dict(f, _p=[f["n"]]) for f in leaf["fields"]])]})
+        self.classes = [leaf]
+        fields = []
+        for i in range(rng.randint(1, 2)):
+            fields.append(self.scalar_field("a%d" % i, True, width=rng.choice([2, 3, 4])))
+        if rng.random() < 0.5:
+            f = self.scalar_field("k0", False, width=rng.choice([2, 3]))
+            f["i"] = self.in_range_value(f)
+            fields.append(f)
+        lists = []
+        n_l = rng.randint(1, 3)
+        for i in range(n_l):
+            r = rng.random()
+            w = rng.choice([2, 3, 4])
+            s = bool(self.cfg["signed"] and rng.random() < 0.25)
+            if allow_randsz and r < 0.3:
+                lf = {"n": "l%d" % i, "k": "l", "w": w, "s": s, "r": True, "rsz": True, "sz": 0}
+            elif r < 0.8:
+                lf = {"n": "l%d" % i, "k": "l", "w": w, "s": s, "r": rng.random() < 0.85,
+                      "rsz": False, "sz": rng.choice([0, 1, 2, 3, 3, 4])}
+            else:
+                lf = {"n": "l%d" % i, "k": "le", "en": enums[0]["name"], "r": True, "rsz": False,
+                      "sz": rng.choice([1, 2, 3])}
+            lists.append(lf)
+        fields += lists
+        if allow_obj and rng.random() < 0.4:
+            fields.append({"n": "ol", "k": "lo", "c": "L0", "r": True, "sz": rng.randint(1, 3)})
+        cdef = {"name": "K0", "fields": fields, "blocks": [], "_level": 1}
+        self.classes.append(cdef)
+        own = [dict(f, _p=[f["n"]]) for f in fields if f["k"] == "s"]
+        stmts = []
+        for lf in lists:
+            if lf.get("rsz"):
+                hi = rng.randint(1, 5)
+                lo = rng.randint(0, hi)
+                r = rng.random()
+                if r < 0.5:
+                    stmts.append(EXPR({"t": "in", "e": {"t": "size", "p": [lf["n"]]}, "rl": [[lo, hi]]}))
+                elif r < 0.8:
+                    stmts.append(EXPR(BIN("<=", {"t": "size", "p": [lf["n"]]}, LIT(hi))))
+                    if rng.random() < 0.5:
+                        stmts.append(EXPR(BIN(">=", {"t": "size", "p": [lf["n"]]}, LIT(lo))))
+                else:
+                    stmts.append(EXPR(BIN("==", {"t": "size", "p": [lf["n"]]}, LIT(rng.randint(0, 4)))))
+        for _ in range(rng.randint(1, 4)):
+            lf = rng.choice(lists)
+            r = rng.random()
+            if lf["k"] == "le":
+                item = rng.choice(enums[0]["items"])[0]
+                stmts.append({"t": "foreach", "p": [lf["n"]], "it": True, "idx": True, "body": [
+                    EXPR(BIN(rng.choice(["==", "!="]), {"t": "f", "p": [lf["n"], _loopvar(0, True)]},
+                             {"t": "en", "en": lf["en"], "item": item}))]})
+            elif r < 0.45:
+                stmts.append(self.foreach_scalar(lf, own))
+            elif lf.get("rsz") and "randsz-aggregate" in gates:
+                stmts.append(self.foreach_scalar(lf, own))
+            else:
+                stmts.append(self.aggregate(lf, own))
+        if "ol" in [f["n"] for f in fields]:
+            stmts.append(self.foreach_obj([f for f in fields if f["n"] == "ol"][0], own))
+        same = [l for l in lists if l["k"] == "l" and not l.get("rsz") and l["r"] and l["sz"] >= 1]
+        for a in same:
+            for b in same:
+                if a is not b and a["sz"] == b["sz"] and a["s"] == b["s"] and rng.random() < 0.3:
+                    stmts.append({"t": "unique_vec", "args": [{"t": "flist", "p": [a["n"]]},
+                                                                 {"t": "flist", "p": [b["n"]]}]})
+        if own and rng.random() < 0.5:
+            stmts.append(self.stmt(own, 1))
+        rng.shuffle(stmts)
+        nb = rng.randint(1, 2)
+        cut = len(stmts) // nb if nb > 1 else len(stmts)
+        cdef["blocks"].append({"n": "c0", "stmts": stmts[:cut]})
+        if nb > 1:
+            cdef["blocks"].append({"n": "c1", "stmts": stmts[cut:]})
+        return {"enums": enums, "classes": [strip(c) for c in self.classes], "top": "K0"}
